@@ -507,9 +507,7 @@ func (g *c18Gen) gen(family string) stCase {
 			strings.Contains(e.Src, e.Name+":"+e.VText) {
 			mark("colon-letter", k)
 		}
-		if e.Kind == "computed" && strings.Contains(e.Src, e.Delim+" ") {
-			mark("computed-space", k)
-		}
+		// (a blank after the delimiter of a computed edit used to be a recorded defect shape; repaired in /repo 7cf18a0)
 		if k+1 < n {
 			nx := &c.Edits[k+1]
 			eff := c.Seps[k] // `)` swallows the blanks that follow it: a blank-only separator then separates nothing
@@ -526,7 +524,7 @@ func (g *c18Gen) gen(family string) stCase {
 			}
 		}
 	}
-	for _, h := range []string{"digits", "abut", "paren-amp", "colon-letter", "computed-space"} {
+	for _, h := range []string{"digits", "abut", "paren-amp", "colon-letter"} {
 		if at, ok := hz[h]; ok {
 			c.Hazards = append(c.Hazards, stHazard{h, at})
 		}
